@@ -8,6 +8,7 @@
   form, evaluated by the harness on every generated input, and `wf_of_wfB` links the two.
 -/
 import Proofs.Lemmas.AoefRoundtrip
+import SoundeventModel.Aoef.File
 namespace SE.Proofs.C01
 open SE SE.Aoef SE.Paths
 
@@ -171,5 +172,65 @@ example : ∀ c ∈ adapterOrder, firstMatch adapterOrder collectionSub c = some
 example : MostSpecificFirst ("recording_set" :: adapterOrder.filter (· != "recording_set")) collectionSub = false
     ∧ firstMatch ("recording_set" :: adapterOrder.filter (· != "recording_set")) collectionSub "dataset"
         = some "recording_set" := by decide
+
+
+/-! ### the file-level gate of `io.load` (format, existence, suffix, requested type, version) -/
+
+/-- `io.load` reaches the document conversion exactly when the file exists, is a `.json` file, the
+    format is `aoef` (given or inferred), the version is the supported one and the requested type —
+    if any — is the document's type -/
+theorem C01_load_gate_iff (r : LoadRequest) :
+    loadGate r = .ok () ↔
+      (r.format = none ∨ r.format = some "aoef") ∧ r.fileExists = true ∧ r.suffixJson = true ∧
+      (r.reqType = none ∨ r.reqType = some r.docType) ∧ r.version = AOEF_VERSION := by
+  rcases r with ⟨ex, sj, fmt, rt, ver, dt⟩
+  cases ex <;> cases sj <;> rcases fmt with _ | f <;> rcases rt with _ | t <;>
+    simp [loadGate, bind, Except.bind, pure, Except.pure] <;>
+    (repeat' split) <;> simp_all <;> grind
+
+/-- a missing file is reported as such only when the format is acceptable; everything else is a
+    `ValueError` -/
+theorem C01_load_gate_not_found (r : LoadRequest) :
+    loadGate r = .error .notFound ↔
+      r.fileExists = false ∧ ((r.format = none ∧ r.suffixJson = true) ∨ r.format = some "aoef") := by
+  rcases r with ⟨ex, sj, fmt, rt, ver, dt⟩
+  cases ex <;> cases sj <;> rcases fmt with _ | f <;> rcases rt with _ | t <;>
+    simp [loadGate, bind, Except.bind, pure, Except.pure] <;>
+    (repeat' split) <;> simp_all
+
+/-- with an explicit `type`, a successfully loaded object has that type -/
+theorem C01_load_file_type (r : LoadRequest) (d : Doc) (dir : Option PPath) (c : Collection) (t : String)
+    (hd : d.collection_type = r.docType) (ht : r.reqType = some t) (h : loadFile r d dir = .ok c) :
+    c.typeName = t := by
+  unfold loadFile at h
+  cases hg : loadGate r with
+  | error e => simp [hg, bind, Except.bind] at h
+  | ok u =>
+    have hgate := (C01_load_gate_iff r).1 (by cases u; exact hg)
+    rcases hgate.2.2.2.1 with h1 | h1
+    · rw [ht] at h1; cases h1
+    · rw [ht] at h1
+      have htd : t = r.docType := by injection h1
+      cases hl : loadChecked d dir with
+      | error e => simp [hg, hl, bind, Except.bind] at h
+      | ok c' =>
+        simp [hg, hl, bind, Except.bind, pure, Except.pure] at h
+        subst h
+        unfold loadChecked at hl
+        cases hl2 : load d dir with
+        | error e => simp [hl2, bind, Except.bind] at hl
+        | ok c2 =>
+          simp only [hl2, bind, Except.bind] at hl
+          split at hl
+          · have : c2 = c' := by simpa [pure, Except.pure] using hl
+            subst this
+            rw [htd, ← hd]
+            exact C01_same_type_load d dir c2 hl2
+          · cases hl
+
+example : loadGate ⟨true, true, none, some "dataset", "1.1.0", "dataset"⟩ = .ok () := by decide
+example : loadGate ⟨true, true, none, some "recording_set", "1.1.0", "dataset"⟩ = .error .invalid := by decide
+example : loadGate ⟨false, true, some "aoef", none, "1.1.0", "dataset"⟩ = .error .notFound := by decide
+example : loadGate ⟨false, false, none, none, "1.1.0", "dataset"⟩ = .error .invalid := by decide
 
 end SE.Proofs.C01
